@@ -8,6 +8,7 @@ CONSTANTS
   LinkMiuA = 150
   LinkMiuB = 300
   MaxAcc = 2
+  Hows = {"sap", "name", "noname"}
   ListenerPresent = TRUE
 INVARIANT Agreement
 INVARIANT NoEarlyLoss
